@@ -1329,6 +1329,26 @@ def _code_objects(o: Any, _seen: set[int] | None = None) -> list[types.CodeType]
     raise SchedulerError(f"trace_code: cannot find code objects in {o!r}")
 
 
+def members(owner: Any, *names: str) -> list[Any]:
+    """The named functions/methods of *owner* (a class or module) that exist, for ``trace_code``.
+
+    A check names the functions whose lines it wants as preemption points; a refactor of the code under test may
+    rename or split them.  Missing names are skipped, and if none is left the whole owner is traced (every function
+    it defines) — the oracle never depends on *which* lines can be preempted, only the reach of the search does, so a
+    rename must not turn the check into a harness error.
+    """
+    found = []
+    for n in names:
+        v = getattr(owner, n, None)
+        if v is not None and callable(v) or isinstance(v, property):
+            found.append(getattr(v, "__wrapped__", v) if n.endswith(".__wrapped__") else v)
+    if found:
+        return found
+    if isinstance(owner, type):
+        return [owner]
+    return [v for v in vars(owner).values() if isinstance(v, types.FunctionType) and v.__module__ == getattr(owner, "__name__", None)]
+
+
 def _normalize_schedule(schedule: Any) -> dict[str, Any]:
     if schedule is None:
         return {"mode": "stay"}
